@@ -9,6 +9,7 @@ pub mod c17;
 pub mod c02;
 pub mod c03;
 pub mod c06;
+pub mod c07;
 pub mod oracle;
 
 pub type Suite = fn(&[i128]) -> Vec<i128>;
@@ -29,6 +30,9 @@ pub fn suites() -> Vec<(&'static str, Suite)> {
         ("aa_spans", c03::run_aa_spans as Suite),
         ("hair_spans", c06::run_hair_spans as Suite),
         ("hair_px", c06::run_hair_px as Suite),
+        ("dash_new", c07::run_dash_new as Suite),
+        ("dash", c07::run_dash as Suite),
+        ("dash_geo", c07::run_dash_geo as Suite),
     ]
 }
 
